@@ -13,7 +13,7 @@ pub fn run(cfg: &Cfg, log: &mut Log) {
             log.set("constructors", c);
         }
         log.counters.entry("max_depth".into()).and_modify(|d| *d = (*d).max(rc.ty.depth() as u64)).or_insert(rc.ty.depth() as u64);
-        for v in values(&rc, cfg.seed, nvals) {
+        for v in values(&rc, cfg.seed, nvals).into_iter().chain(big_values(&rc)) {
             log.begin(rc.name);
             log.count("evaluations", 1);
             let key = model::rng::fnv(rc.name) ^ v.shape_hash();
